@@ -81,21 +81,34 @@ func runCmd(c *core.Ctx, t target, path string) cmdx.Res {
 	for i, a := range args {
 		if a == "--FORMAT" {
 			args[i] = "--fasta"
-			if strings.Contains(path, ".fastq") {
+			switch {
+			case strings.Contains(path, ".fastq"):
 				args[i] = "--fastq"
+			case strings.Contains(path, ".embl"):
+				args[i] = "--embl"
+			case strings.Contains(path, ".gb"):
+				args[i] = "--genbank"
 			}
 		}
 	}
 	if t.stdin {
 		opt.StdinFile = path
 	} else {
-		if t.extra == "two-files" {
-			args = append(args, okFileFor(path))
+		switch t.extra {
+		case "two-files":
+			args = append(args, okFileFor(path), path)
+		case "paired":
+			// the damaged file is the mate file; the forward file (same records, intact) is given by name
+			args = append(args, "--paired-with", path, "-o", path+".out.fastq", pairedFileFor(path))
+		default:
+			args = append(args, path)
 		}
-		args = append(args, path)
 	}
 	return cmdx.Run(filepath.Join(c.BinDir, t.bin), args, opt)
 }
+
+// pairedFileFor: the intact, uncompressed forward file written next to a damaged mate file.
+func pairedFileFor(path string) string { return path + ".fwd.fastq" }
 
 // okFileFor returns the path of the intact, uncompressed companion of a faulty file (written by runTruncate).
 func okFileFor(path string) string {
@@ -151,6 +164,10 @@ func sizeParams(c *core.Ctx) (n int, class string) {
 
 func runTruncate(c *core.Ctx, codec string) {
 	n, class := sizeParams(c)
+	if c.Idx%6 >= 4 {
+		runTruncateFlat(c, codec, []string{"embl", "genbank"}[c.Idx%2], min(n, 60), class)
+		return
+	}
 	fastq := c.Idx%2 == 1
 	text := seqText(c.Rng, n, fastq)
 	enc := codec
@@ -169,6 +186,15 @@ func runTruncate(c *core.Ctx, codec string) {
 	base := filepath.Join(c.Dir, fmt.Sprintf("t%d%s%s", c.Idx, ext, gen.CodecExt(codec)))
 	defer os.Remove(base)
 	tg := targets(codec)
+	if fastq {
+		// paired-end mode: the damaged file is the mate file of an intact forward file
+		tg = append(tg, target{"obiconvert:paired-with", "obiconvert", nil, false, "paired"})
+		os.WriteFile(pairedFileFor(base), text, 0o644)
+		defer os.Remove(pairedFileFor(base))
+		defer os.Remove(base + ".out_R1.fastq")
+		defer os.Remove(base + ".out_R2.fastq")
+		defer os.Remove(base + ".out.fastq")
+	}
 	os.WriteFile(okFileFor(base), seqText(c.Rng, 5, fastq), 0o644)
 	defer os.Remove(okFileFor(base))
 	// sanity: the intact file must be accepted
@@ -206,6 +232,43 @@ func runTruncate(c *core.Ctx, codec string) {
 			continue
 		}
 		checkTrunc(c, codec, class, t, base, k, len(comp), n)
+	}
+}
+
+// runTruncateFlat: the same fault enumeration on compressed EMBL / GenBank flat files, read with the
+// guessed format and with the format forced (--embl / --genbank: another opening code path).
+func runTruncateFlat(c *core.Ctx, codec, format string, n int, class string) {
+	text := flatText(c.Rng, format, n)
+	comp, err := gen.Compress(codec, text)
+	if err != nil {
+		c.Inconclusive("cannot compress: " + err.Error())
+		return
+	}
+	ext := map[string]string{"embl": ".embl", "genbank": ".gb"}[format]
+	base := filepath.Join(c.Dir, fmt.Sprintf("f%d%s%s", c.Idx, ext, gen.CodecExt(codec)))
+	defer os.Remove(base)
+	tg := []target{
+		{"obiconvert:flat-file", "obiconvert", nil, false, ""},
+		{"obiconvert:flat-file-forced-format", "obiconvert", []string{"--FORMAT"}, false, ""},
+		{"obicount:flat-file-forced-format", "obicount", []string{"--FORMAT"}, false, ""},
+	}
+	os.WriteFile(base, comp, 0o644)
+	for _, t := range tg {
+		if intact := runCmd(c, t, base); intact.Exit != 0 {
+			c.Violate("intact-rejected:"+t.name, "the intact compressed file is rejected", map[string]any{"codec": codec, "format": format, "records": n, "stderr": cmdx.Tail(intact.Stderr, 800)})
+			return
+		}
+	}
+	c.Sample(map[string]any{"codec": codec, "format": format, "records": n, "compressed_bytes": len(comp), "faults": "truncation at byte k (k from 6 to len-1)"})
+	for i, k := range points(c, 6, len(comp), c.Pick(40, 2048), c.Pick(40, 160)) {
+		os.WriteFile(base, comp[:k], 0o644)
+		if !c.Quick() && len(comp) <= 600 {
+			for _, tt := range tg {
+				checkTrunc(c, codec+":"+format, class, tt, base, k, len(comp), n)
+			}
+			continue
+		}
+		checkTrunc(c, codec+":"+format, class, tg[(i+c.Idx)%len(tg)], base, k, len(comp), n)
 	}
 }
 
